@@ -1,50 +1,9 @@
-// hrun drives the real voedger components for one property and writes the observed traces.
-//   hrun <ID> -seed S -n N -tier quick|thorough -out cases.jsonl [-corpus dir] [-replay file]
+// hrun with every property linked in:  hrun <ID> -seed S -n N -tier quick|thorough -out cases.jsonl [-corpus dir] [-replay file]
 package main
 
 import (
-	"flag"
-	"fmt"
-	"os"
-
 	_ "verifharness/all"
-	"verifharness/kit"
+	"verifharness/hmain"
 )
 
-func main() {
-	if len(os.Args) < 2 {
-		fmt.Fprintln(os.Stderr, "usage: hrun <ID> [flags]")
-		os.Exit(2)
-	}
-	id := os.Args[1]
-	fs := flag.NewFlagSet("hrun", flag.ExitOnError)
-	seed := fs.Uint64("seed", 1, "PRNG seed")
-	n := fs.Int("n", 100, "number of generated cases")
-	tier := fs.String("tier", "quick", "quick|thorough")
-	outp := fs.String("out", "cases.jsonl", "output file")
-	corpus := fs.String("corpus", "", "corpus directory (run first)")
-	replay := fs.String("replay", "", "replay one stored case")
-	shard := fs.Int("shard", 0, "shard index (thorough tier)")
-	fs.Parse(os.Args[2:])
-	out, err := kit.NewOut(*outp)
-	if err != nil {
-		fmt.Fprintln(os.Stderr, err)
-		os.Exit(2)
-	}
-	r, ok := kit.Registry[id]
-	switch {
-	case !ok:
-		err = fmt.Errorf("unknown property %s", id)
-	case *replay != "":
-		err = r.Replay(*replay, out)
-	default:
-		err = r.Generate(*seed, *n, *tier, *corpus, *shard, out)
-	}
-	if cerr := out.Close(); err == nil {
-		err = cerr
-	}
-	if err != nil {
-		fmt.Fprintln(os.Stderr, "hrun:", err)
-		os.Exit(2)
-	}
-}
+func main() { hmain.Main() }
